@@ -1,7 +1,7 @@
 """C09 — bar splitting follows the signatures and conserves the music.  Deciding oracle: post-contract on the real
 static Sequence.sequences_split_bars (snapshots of every input; oracle signature walk bar by bar)."""
 from vmon import gen
-from vmon.checks.common import obs, fail
+from vmon.checks.common import obs, fail, random_prefix, apply_prefix
 
 PROP = "C09"
 MONITORS = ["bars"]
@@ -26,14 +26,16 @@ def make_case(rng, i, tier):
     pc = gen.piece(rng, lens=VALS if q else None, multi_channel=True, ragged=True,
                    ongrid=(lambda x: x % 4 == 0 or x % 6 == 0) if (q and rng.random() < 0.5) else None)
     # make sure the meta track reaches far enough often (signatures beyond its end are still on its list)
-    return {"piece": pc, "quantise": q}
+    safe = ("normalise", "copy", "read_abs", "read_rel", "iter_rel_velocity_edit", "iter_abs_velocity_edit", "set_channel", "transpose", "merge_empty", "qnl")
+    prefixes = [[op for op in random_prefix(rng, n=(1, 2)) if op["op"] in safe and not (op["op"] == "qnl" and not q)] if i % 4 == 3 else [] for _ in pc["tracks"]]
+    return {"piece": pc, "quantise": q, "prefixes": prefixes}
 
 
 def run(case, ctx):
     from vmon.monitors import LOG
     from scoda.sequences.sequence import Sequence
     pc = case["piece"]
-    seqs = [gen.build_seq(t) for t in pc["tracks"]]
+    seqs = [apply_prefix(gen.build_seq(t), pf) for t, pf in zip(pc["tracks"], case.get("prefixes") or [[]] * len(pc["tracks"]))]
     pre = [obs(s) for s in seqs]
     tb = Sequence.sequences_split_bars(seqs, pc["meta"], quantise_note_lengths=case["quantise"])
     fails = []
